@@ -129,7 +129,37 @@ func (w *world) contents(props []string, in *inst, st stream, c *collection, ops
 
 // ---------- C02 ----------
 
+// checkZeroSets: a measurement of value 0 names no bit, but it creates its attribute set: every cumulative
+// collection invoked after it returned reports a point for that set (whose value may well be 0).
+func (w *world) checkZeroSets() {
+	if w.limit > 0 {
+		return // the set may legitimately have gone to the overflow set
+	}
+	for _, z := range w.zeros {
+		if z.ret == 0 {
+			continue
+		}
+		in := w.insts[z.inst]
+		for _, st := range in.streams {
+			if st.dropped {
+				continue
+			}
+			key := z.set.key(st.keep)
+			for _, c := range w.collsOf("C") {
+				if c.inv < z.ret {
+					continue
+				}
+				if _, ok := c.data[st.name][key]; !ok {
+					w.viol(w.conservationProps(in, st), "cumulative-forgot", "cumulative-forgot-set/C", "%s reader C: collection #%d (invoked %d) has no point for set [%s] although Add(0) for it returned at %d; reported sets %v", st.name, c.idx, c.inv, key, z.ret, keysOf(c.data[st.name]))
+					break
+				}
+			}
+		}
+	}
+}
+
 func (w *world) oracleC02(usePeriodic bool) {
+	w.checkZeroSets()
 	readers := []string{"D", "C"}
 	if usePeriodic {
 		readers = append(readers, "P")
@@ -873,6 +903,9 @@ func (w *world) checkExpo(prop, where, key string, cum point, deltas []point, ze
 		tot += c
 	}
 	if tot+cum.zero+cum.negN != cum.count {
+		// (the stream only exists through a re-aggregating view: measurements duplicated or lost between
+		// count and buckets are C12's business as well)
+		w.r.Violate("C12", "histogram-inconsistent", "histogram-inconsistent/exponential", "%s set [%s]: zero count %d + bucket counts %d != count %d (scale %d offset %d counts %v)", where, key, cum.zero, tot, cum.count, cum.scale, cum.posOff, cum.pos)
 		w.r.Violate(prop, "histogram-inconsistent", "histogram-inconsistent/exponential", "%s set [%s]: zero count %d + bucket counts %d != count %d (scale %d offset %d counts %v)", where, key, cum.zero, tot, cum.count, cum.scale, cum.posOff, cum.pos)
 	}
 	if cum.zero != zero {
